@@ -696,6 +696,8 @@ pub struct VCfg {
     /// the application once fell behind: more events than the event channel holds were produced
     /// before it drained the stream (events are lost then, but later ones must still arrive)
     pub burst: bool,
+    /// the ping interval (60 s) exceeds the vote lifetime (30 s), as with the default configuration
+    pub slow_ping: bool,
     /// events replayed before the explored history (contested starting states)
     pub seed: Vec<VEv>,
 }
@@ -719,7 +721,8 @@ async fn run_c17_async(cfg: &VCfg, hist: &[VEv]) -> Outcome<VEv> {
         ListenConfig::Ipv4 { ip: Ipv4Addr::new(10, 0, 0, 50), port: 9000 }
     };
     let min = cfg.min;
-    let mut node = SNode::start(SNodeSpec { keyno: 50, listen, enr: None }, |b| { b.enr_peer_update_min(min); b.vote_duration(VOTE_DURATION); b.ping_interval(PING_INTERVAL); }, true).await;
+    let ping_interval = if cfg.slow_ping { std::time::Duration::from_secs(60) } else { PING_INTERVAL };
+    let mut node = SNode::start(SNodeSpec { keyno: 50, listen, enr: None }, |b| { b.enr_peer_update_min(min); b.vote_duration(VOTE_DURATION); b.ping_interval(ping_interval); }, true).await;
     let nv = cfg.voters.len();
     let mut voters: Vec<(Enr, NodeAddress)> = vec![];
     let mut violation: Option<Violation> = None;
@@ -813,7 +816,7 @@ async fn run_c17_async(cfg: &VCfg, hist: &[VEv]) -> Outcome<VEv> {
                 node.inject(HandlerOut::RequestFailed(id, discv5::RequestError::Timeout)).await;
             }
             VEv::PingRound => {
-                clock::advance(PING_INTERVAL);
+                clock::advance(ping_interval);
                 rt::settle().await;
                 rt::settle().await;
             }
@@ -926,7 +929,7 @@ async fn run_c17_async(cfg: &VCfg, hist: &[VEv]) -> Outcome<VEv> {
 }
 
 pub fn debug_c17() {
-    let cfg = VCfg { dual: true, min: 2, voters: vec![0, 1, 0, 1], addrs: 3, with_fail: false, burst: false, seed: vec![] };
+    let cfg = VCfg { dual: true, min: 2, voters: vec![0, 1, 0, 1], addrs: 3, with_fail: false, burst: false, slow_ping: false, seed: vec![] };
     let h = vec![VEv::Pong(0, 0), VEv::PingRound, VEv::Pong(1, 1), VEv::PingRound, VEv::Pong(1, 0), VEv::Pong(0, 1)];
     for n in 1..=h.len() {
         let o = rt::run(run_c17_async(&cfg, &h[..n]));
@@ -938,19 +941,20 @@ pub fn run_c17() {
     let mut rep = Report::new("C17", "model_checking");
     let thorough = rep.thorough();
     let mut cfgs = vec![
-        VCfg { dual: false, min: 2, voters: vec![0, 0, 0, 0], addrs: 2, with_fail: false, burst: false, seed: vec![] },
-        VCfg { dual: false, min: 3, voters: vec![0, 0, 0, 0, 0], addrs: 2, with_fail: false, burst: false, seed: vec![] },
-        VCfg { dual: false, min: 2, voters: vec![0, 1, 2, 0], addrs: 2, with_fail: true, burst: false, seed: vec![] },
-        VCfg { dual: true, min: 2, voters: vec![0, 1, 0, 1], addrs: 3, with_fail: false, burst: false, seed: vec![] },
+        VCfg { dual: false, min: 2, voters: vec![0, 0, 0, 0], addrs: 2, with_fail: false, burst: false, slow_ping: false, seed: vec![] },
+        VCfg { dual: false, min: 3, voters: vec![0, 0, 0, 0, 0], addrs: 2, with_fail: false, burst: false, slow_ping: false, seed: vec![] },
+        VCfg { dual: false, min: 2, voters: vec![0, 1, 2, 0], addrs: 2, with_fail: true, burst: false, slow_ping: false, seed: vec![] },
+        VCfg { dual: true, min: 2, voters: vec![0, 1, 0, 1], addrs: 3, with_fail: false, burst: false, slow_ping: false, seed: vec![] },
     ];
-    cfgs.push(VCfg { dual: false, min: 2, voters: vec![0, 0, 1], addrs: 2, with_fail: false, burst: true, seed: vec![] });
+    cfgs.push(VCfg { dual: false, min: 2, voters: vec![0, 0, 1], addrs: 2, with_fail: false, burst: true, slow_ping: false, seed: vec![] });
+    cfgs.push(VCfg { dual: false, min: 2, voters: vec![0, 0, 0], addrs: 2, with_fail: false, burst: false, slow_ping: true, seed: vec![] });
     // contested starting states: two addresses with 2:2 and 3:2 votes among five eligible voters
-    cfgs.push(VCfg { dual: false, min: 2, voters: vec![0, 0, 0, 0, 0], addrs: 3, with_fail: false, burst: false, seed: vec![VEv::Pong(0, 0), VEv::Pong(1, 1), VEv::Pong(2, 0), VEv::Pong(3, 1)] });
-    cfgs.push(VCfg { dual: false, min: 3, voters: vec![0, 0, 0, 0, 0], addrs: 3, with_fail: false, burst: false, seed: vec![VEv::Pong(0, 0), VEv::Pong(1, 1), VEv::Pong(2, 0), VEv::Pong(3, 1), VEv::Pong(4, 0), VEv::PingRound] });
+    cfgs.push(VCfg { dual: false, min: 2, voters: vec![0, 0, 0, 0, 0], addrs: 3, with_fail: false, burst: false, slow_ping: false, seed: vec![VEv::Pong(0, 0), VEv::Pong(1, 1), VEv::Pong(2, 0), VEv::Pong(3, 1)] });
+    cfgs.push(VCfg { dual: false, min: 3, voters: vec![0, 0, 0, 0, 0], addrs: 3, with_fail: false, burst: false, slow_ping: false, seed: vec![VEv::Pong(0, 0), VEv::Pong(1, 1), VEv::Pong(2, 0), VEv::Pong(3, 1), VEv::Pong(4, 0), VEv::PingRound] });
     if thorough {
-        cfgs.push(VCfg { dual: false, min: 2, voters: vec![0, 0, 0, 0, 0], addrs: 3, with_fail: false, burst: false, seed: vec![] });
-        cfgs.push(VCfg { dual: false, min: 3, voters: vec![0, 1, 2, 0, 1], addrs: 2, with_fail: true, burst: false, seed: vec![] });
-        cfgs.push(VCfg { dual: true, min: 3, voters: vec![0, 0, 1, 1, 2], addrs: 3, with_fail: true, burst: false, seed: vec![] });
+        cfgs.push(VCfg { dual: false, min: 2, voters: vec![0, 0, 0, 0, 0], addrs: 3, with_fail: false, burst: false, slow_ping: false, seed: vec![] });
+        cfgs.push(VCfg { dual: false, min: 3, voters: vec![0, 1, 2, 0, 1], addrs: 2, with_fail: true, burst: false, slow_ping: false, seed: vec![] });
+        cfgs.push(VCfg { dual: true, min: 3, voters: vec![0, 0, 1, 1, 2], addrs: 3, with_fail: true, burst: false, slow_ping: false, seed: vec![] });
     }
     let depth = if thorough { 8 } else { 6 };
     let budget = mc::budget(thorough, 50.0, 1.0);
@@ -1011,4 +1015,76 @@ pub fn run_c17() {
         rep.vacuous("C17 vacuous: the address never changed");
     }
     rep.finish();
+}
+
+/* ------------------------------------------------------------------------------------ */
+/* C16, service level: the limits are in force for every listen mode when `ip_limit` is   */
+/* configured (the table engine drives the table with the filters directly)               */
+/* ------------------------------------------------------------------------------------ */
+
+/// For the three listen modes: a real `Discv5` configured with `ip_limit()`; records of one /24
+/// (each also carrying a distinct IPv6 endpoint, so that they are contactable in every mode) are
+/// offered through `add_enr`: the third one of a bucket and the eleventh of the table must be
+/// refused, and the table never holds more.
+pub fn c16_service_level() -> (u64, Vec<Violation>) {
+    let mut problems = vec![];
+    let mut offered = 0u64;
+    for mode in 0..3u8 {
+        let r: Result<u64, Violation> = rt::run(async move {
+            let listen = match mode {
+                0 => ListenConfig::Ipv4 { ip: Ipv4Addr::new(10, 0, 0, 60), port: 9000 },
+                1 => ListenConfig::Ipv6 { ip: "2001:db8::60".parse().unwrap(), port: 9000 },
+                _ => ListenConfig::DualStack { ipv4: Ipv4Addr::new(10, 0, 0, 60), ipv4_port: 9000, ipv6: "2001:db8::60".parse().unwrap(), ipv6_port: 9000 },
+            };
+            let node = SNode::start(SNodeSpec { keyno: 60, listen, enr: None }, |b| { b.ip_limit(); }, false).await;
+            let pool = key_pool(&node.id, 4000, 400);
+            let mk = |k: u16| -> Enr {
+                let key = util::key(k);
+                util::enr(&key, &util::EnrSpec { seq: 1, ip4: Some((Ipv4Addr::new(10, 77, 0, (k % 250) as u8 + 1), 9000)), ip6: Some((std::net::Ipv6Addr::new(0x2001, 0xdb8, 0, 0, 0, 0, 1, k), 9000)), pad: 0 })
+            };
+            let mut n = 0u64;
+            // three of one bucket, then further buckets up to 12 records of the /24
+            let mut order: Vec<u16> = vec![];
+            if let Some(ks) = pool.by_distance.get(&256) {
+                order.extend(ks.iter().take(3));
+            }
+            for d in [255u64, 254, 253, 252] {
+                if let Some(ks) = pool.by_distance.get(&d) {
+                    order.extend(ks.iter().take(2));
+                }
+            }
+            if let Some(ks) = pool.by_distance.get(&256) {
+                order.extend(ks.iter().skip(3).take(3));
+            }
+            for k in order {
+                let _ = node.discv5.add_enr(mk(k));
+                n += 1;
+                let entries = node.discv5.table_entries();
+                let mut per_bucket: BTreeMap<u64, usize> = BTreeMap::new();
+                let mut total = 0usize;
+                for (id, e, _) in &entries {
+                    if e.ip4().map(|i| i.octets()[..3] == [10, 77, 0]).unwrap_or(false) {
+                        total += 1;
+                        *per_bucket.entry(util::log2_distance(&node.id, id)).or_insert(0) += 1;
+                    }
+                }
+                let name = ["Ipv4", "Ipv6", "DualStack"][mode as usize];
+                if let Some((b, c)) = per_bucket.iter().find(|(_, c)| **c > 2) {
+                    return Err(Violation { clause: "a bucket never holds more than 2 nodes sharing a /24".into(), key: format!("service:bucket-limit:{name}"), detail: format!("listen mode {name} with ip_limit: bucket {b} holds {c} nodes of 10.77.0.0/24 after {n} add_enr calls"), replay: json!({"engine":"ssim","check":"C16","listen_mode":name}) });
+                }
+                if total > 10 {
+                    return Err(Violation { clause: "the table never holds more than 10 nodes sharing a /24".into(), key: format!("service:table-limit:{name}"), detail: format!("listen mode {name} with ip_limit: {total} nodes of 10.77.0.0/24 after {n} add_enr calls"), replay: json!({"engine":"ssim","check":"C16","listen_mode":name}) });
+                }
+            }
+            if n < 12 {
+                return Err(Violation { clause: "harness".into(), key: "service:too-few-keys".into(), detail: format!("only {n} records offered"), replay: json!(null) });
+            }
+            Ok(n)
+        });
+        match r {
+            Ok(n) => offered += n,
+            Err(v) => problems.push(v),
+        }
+    }
+    (offered, problems)
 }
